@@ -12,7 +12,8 @@ CHECKS = {
              "declarative Hits/PointHits operators for all sequences of <=3 (quick) / <=4 (thorough) intervals; the same "
              "operators are the oracle for an exhaustive replay of every (sequence, query) on the real IntervalTree under "
              "int/negative/float/datetime embeddings, for recorded random sessions validated by IntervalTrace.tla, and "
-             "for FileSet.match on TLC-enumerated pairs of file populations.",
+             "for FileSet.match on TLC-enumerated pairs of file populations. "
+         "match(): file names whose path order differs from their time order; max_interval as timedelta, int, float, numpy scalars and string.",
         ref="DESIGN.md §5 C03",
         note="Trusted: TLC, the ~40-line IntervalProps module, the harness projection (0-based -> 1-based indices). "
              "Bound: <=4 stored intervals over 5 ticks exhaustively; random sessions up to 60 intervals.",
@@ -25,7 +26,8 @@ CHECKS["C01"] = dict(
          "by TLC against the declarative FindSpec of FindProps.tla for all populations/queries of the bound and per layout; "
          "the precondition's necessity is shown by an expected counterexample. FindSpec is then the oracle for replaying "
          "TLC-enumerated populations x every period/filter/exclusion on real directory trees under 5 calendar embeddings x "
-         "16 layouts x name styles (full / partial / no end fields, with and without user placeholders) on the local file system and inside a zip archive (fsspec), and recorded random sessions (find, bundles, `in`, len) are validated by FindTrace.tla.",
+         "16 layouts x name styles (full / partial / no end fields, with and without user placeholders) on the local file system and inside a zip archive (fsspec), and recorded random sessions (find, bundles, `in`, len) are validated by FindTrace.tla. "
+         "Every abstract period is concretised in four ways (tick times, a second below, a microsecond above the previous tick for the end, half a second after the previous tick for both bounds).",
     ref="DESIGN.md §5 C01",
     note="Trusted: TLC, FindProps (~100 lines), the tick->datetime embedding and path->id projection of the harness. Bounds: "
          "<=3-4 files on 10-12 ticks exhaustively/sampled, random sessions up to 14 files on 16 ticks. Remote file "
@@ -52,7 +54,8 @@ CHECKS["C02"] = dict(
          "theorems over a boundary catalogue; every enumerated (template, start, end) is replayed through get_filename, "
          "parse_filename and get_info (also info_via='both') under four concrete spellings. NameMatch.tla decides which "
          "single-piece corruptions of valid names must be rejected with ValueError. "
-         "User placeholders are also given through set_placeholders after the object has already parsed a name.",
+         "User placeholders are also given through set_placeholders after the object has already parsed a name. "
+         "time_coverage is re-assigned on a used object (1 hour, None, 1 day); templates whose end spells its date differently from the start (edate).",
     ref="DESIGN.md §5 C02",
     note="Trusted: TLC, Calendar/NameProps/NameMatch, the harness' zero padding and template assembly. User regexes are "
          "limited to default/[A-Z]+/value list; regex metacharacters other than '.' and '*' in templates are by design "
@@ -84,7 +87,8 @@ CHECKS["C04"] = dict(
          "threshold spellings and tuning parameters, and again inflated by >1000 far-away points per side so that the "
          "temporally pre-binned path (>10^6 candidates) handles the same scenario; call histories on ONE Collocator "
          "(including a fine-scale family whose datasets are np.allclose without being equal) and random clouds up to 150 "
-         "points are validated by CollocTrace.tla.",
+         "points are validated by CollocTrace.tla. "
+         "The start/end window applies to purely spatial searches as well; one-second ticks with thresholds half a second below the tick multiple (number / string / numpy float); grids with non-alphabetical dimension names and a valid (quarantined) second pixel; datasets overwritten in place between the calls of a history.",
     ref="DESIGN.md §5 C04",
     note="Trusted: TLC, CollocProps (~50 lines) on GeoIndexProps, the ring embedding with mid-gap thresholds, one-minute "
          "ticks, the id variable attached by the harness. The start/end window is specified together with max_interval "
@@ -99,7 +103,8 @@ CHECKS["C13"] = dict(
          "Expand(Concat(a,b)) = Expand(a) ++ Expand(b) and invariant preservation and enumerates all compact datasets of the "
          "bound, which are replayed on expand / collapse (default, named reference, custom collapser) / "
          "concat_collocations (lists of 1-3, inputs reused afterwards), every 9th tiled beyond 1000 pairs; genuine "
-         "collocate() results are checked against CompactInv and pair-consistent expansion.",
+         "collocate() results are checked against CompactInv and pair-consistent expansion. "
+         "Variables whose names begin like time/lat/lon, a float32 variable with a large offset, a custom collapser that replaces a standard name followed by default calls.",
     ref="DESIGN.md §5 C13",
     note="Trusted: TLC, CompactProps, the hand-built xarray layout (copied from collocate output). mean/std are compared "
          "through the exact integer identities mean*n = sum and std^2*n^2 = n*sumsq - sum^2 (1e-9/1e-7). numba is not "
@@ -149,7 +154,8 @@ CHECKS["C10"] = dict(
          "submit/start/finish/consume/raise logs are validated against PoolProps by TLC (PoolTrace). align() is driven with "
          "random gated schedules of both loaders and compared with the match list (pairs, order, each needed secondary read "
          "once, skip_errors); process pools are run ungated and judged on order and completeness. "
-         "PoolDesign refines the history-free PoolWindowInd (PROPERTY RefinesInd in the same TLC run), whose window / running / in-order invariant Apalache proves inductive for all N, W <= 12 (extra evidence, with a negative control).",
+         "PoolDesign refines the history-free PoolWindowInd (PROPERTY RefinesInd in the same TLC run), whose window / running / in-order invariant Apalache proves inductive for all N, W <= 12 (extra evidence, with a negative control). "
+         "Pool size left to the fileset's defaults (threads asked for on a fileset that prefers processes); extra args / kwargs of map; filesets with a compression suffix processed twice through one object.",
     ref="DESIGN.md §5 C10",
     note="Trusted: TLC, PoolProps (~45 lines), the gated executor (time-outs only detect a stuck replay: the schedule is "
          "then released and the run is still judged on PoolProps; the evidence counts such runs). Bounds: n <= 4 (quick) / 6 "
@@ -185,7 +191,8 @@ CHECKS["C19"] = dict(
          "values (exact float arithmetic) in shapes (n,), (n,1), (n,k), the argmin set over constant estimates is recomputed "
          "with the real mean_quantile_score and compared with TLC's, inconsistent shapes (n+1 values, and sizes that would "
          "broadcast: k*n, (n,k), 2n against (n,1)) must raise ValueError; mape/bias on (n,) and (n,1) layouts, under negative "
-         "and per-sample signed common factors.",
+         "and per-sample signed common factors. "
+         "(n, k) inputs in different memory layouts; samples of 5000.",
     ref="DESIGN.md §5 C19",
     note="Trusted: TLC, Rat/ScoresProps. Samples <= 5 values from 0..4; candidates for the minimiser are the integers "
          "0..4 (complete for a convex piecewise-linear function with kinks at sample points). mape/bias: equal layouts (n,)/(n,1) for both, mixed "
@@ -202,7 +209,8 @@ CHECKS["C14"] = dict(
          "stand-in constants; the real functions are evaluated on the same floats with typhon.constants / the saturation "
          "function patched (canary-guarded), to 1e-12; CRH for fields of rank 1-3 along every axis. IsaProps.tla transcribes "
          "the tabulated standard atmosphere (piecewise linear in height, linearly continued beyond the table): exact "
-         "temperatures at 22 heights, both addressings at the 8 tabulated levels, pressure2height(p) = pressure2height(p, T_ISA).",
+         "temperatures at 22 heights, both addressings at the 8 tabulated levels, pressure2height(p) = pressure2height(p, T_ISA). "
+         "Homogeneity of the integral in the coordinate (TLC), replayed on a grid scaled by 2^-30; every profile also top-down (increasing pressure), mirror law of the heights; general IWV form along every axis.",
     ref="DESIGN.md §5 C14, §6",
     note="NOT decided by this technique (no exp/log in TLA+): convergence of the two IWV formulations, the isothermal "
          "law z = (RT/g) ln(p0/p), standard-atmosphere interpolation in log-pressure between the tabulated levels. Trusted: TLC, "
@@ -234,7 +242,8 @@ CHECKS["C08"] = dict(
          "inputs must come back unmodified. SnellProps.tla: on the rational points of the unit circle (sin, cos both rational) "
          "and 11 rational refractive indices TLC checks Snell's law, total reflection only out of the denser medium, "
          "|Rv|,|Rh| <= 1, |Rv| = |Rh| at normal incidence, Rv = 0 exactly at the Brewster incidences, complex n2 at normal "
-         "incidence; snell / fresnel are replayed with scalars, arrays straddling the critical angle, broadcast and theta arrays.",
+         "incidence; snell / fresnel are replayed with scalars, arrays straddling the critical angle, broadcast and theta arrays. "
+         "Rayleigh-Jeans homogeneity (TLC) replayed at GHz frequencies given as Python integers; the Jacobian relation between the three Planck forms and the broadcast shape for eight scalar / array / broadcast combinations; real refractive indices of complex type.",
     ref="DESIGN.md §5 C08, §6",
     note="NOT decided (exp/log/sin/sqrt are outside TLA+): everything about planck*, radiance2planckTb; snell / fresnel at "
          "angles whose sine and cosine are not both rational and for complex n2 at oblique incidence.",
@@ -248,7 +257,8 @@ CHECKS["C17"] = dict(
          "space gain, A = G K = I - S Sa^-1, S symmetric positive definite, Sa - S positive semidefinite, spectrum of A in "
          "[0, 1) (via the coefficients of the characteristic polynomials of A and I - A); the printed S, G, A, A(x - xa) and "
          "G e_y are compared (1e-9) with error_covariance_matrix, retrieval_gain_matrix, averaging_kernel_matrix, "
-         "smoothing_error and retrieval_noise.",
+         "smoothing_error and retrieval_noise. "
+         "Sequences of cases through the same array objects (overwritten in place); float32 and integer Jacobians.",
     ref="DESIGN.md §5 C17, §6",
     note="NOT decided: shapes up to 30 x 40, ill-conditioned inputs, the two limit statements (need floating-point analysis). "
          "Trusted: TLC, Rat/OemProps.",
@@ -265,7 +275,8 @@ CHECKS["C18"] = dict(
          "prescribed statistics, be permutation invariant, be unchanged by x2_max, cdf non-decreasing ending at 1, quantiles "
          "monotone within the database range, NaN (no exception) without hits; the x2_max window must keep every entry whose "
          "exact rational chi-square is within x2_max (covariances incl. eigenvalues << 1/2); when TLC finds the whole database "
-         "on one chi-square shell, predict() with S = D itself must give the plain mean and spread (equal weights).",
+         "on one chi-square shell, predict() with S = D itself must give the plain mean and spread (equal weights). "
+         "All channels shifted by 2^22; x2_max = 0 for correlated covariances as well.",
     ref="DESIGN.md §5 C18, §6",
     note="NOT decided: anything depending on the numerical value of exp(-chi^2/2) for non-degenerate weights off a single shell, incl. the "
          "'change bounded by the left-out weight share' clause. x2_max = 0 is exercised with diagonal D only (for correlated D "
@@ -281,7 +292,8 @@ CHECKS["C20"] = dict(
          "mid-cell); SRTM30.elevation / get_tiles are run with synthetic tiles whose pixel encodes global row, column and "
          "tile index and EVERY returned cell is compared; get_native_grids(bounds(t)) = get_grids(t) for all 27 tiles; tile "
          "cache histories (warm/cold) from TileCache.tla are replayed on the real get_tile with a counting download stub. "
-         "Unaligned edges are placed mid-cell and a nanodegree from the cell borders.",
+         "Unaligned edges are placed mid-cell and a nanodegree from the cell borders. "
+         "Cache histories run the real get_tile / download_tile on 6 x 4-pixel tiles with only urllib replaced, including transfers that break off (TileCache!FailingRequest); corners given as 0-d arrays and reused.",
     ref="DESIGN.md §5 C20",
     note="Trusted: TLC, SrtmProps (~60 lines), the synthetic pixel formula (also evaluated by TLC for the corner cells). "
          "Aligned corners are restricted to values exactly representable in binary; decimal-aligned corners are undecidable "
